@@ -13,7 +13,7 @@ theorem effSize_mod8 (c : Config) (req : Nat) : effSize c req % 8 = 0 := by
   have := align8_mod (align8 req)
   unfold effSize ptrAndFixedSize
   split
-  · assumption
+  · simp only; split <;> omega
   · split
     · simp only; split <;> omega
     · split
@@ -27,7 +27,7 @@ theorem effSize_ge (c : Config) (req : Nat) : req ≤ effSize c req := by
   have := align8_ge (align8 req)
   unfold effSize ptrAndFixedSize
   split
-  · simp only; omega
+  · simp only; split <;> omega
   · split
     · simp only; split <;> omega
     · split
@@ -41,7 +41,7 @@ theorem effSize_le (c : Config) (req : Nat) (h : req ≤ 1073741824) : effSize c
   have h2 : align8 (align8 req) ≤ 1073741824 := by unfold align8 at *; omega
   unfold effSize ptrAndFixedSize
   split
-  · simp only; omega
+  · simp only; split <;> omega
   · split
     · simp only; split <;> omega
     · split
@@ -62,12 +62,12 @@ theorem effSize_cls (c : Config) (req : Nat) (hc : c.cap ≠ 0) : ClsSize (effSi
       · simp
       · split <;> simp
 
-theorem effSize_pos (c : Config) (req : Nat) (h : c.cap = 0 → req ≠ 0) : 0 < effSize c req := by
+theorem effSize_pos (c : Config) (req : Nat) : 0 < effSize c req := by
   have := align8_ge req
   have := align8_ge (align8 req)
   unfold effSize ptrAndFixedSize
   split
-  · rename_i hc; have := h hc; simp only; omega
+  · simp only; split <;> omega
   · split
     · simp only; split <;> omega
     · split
